@@ -11,7 +11,7 @@ AXIOMS = ("ClassicalDedekindReals.sig_not_dec", "ClassicalDedekindReals.sig_fora
 META = {
     "technique": "Coq proof (induction on the expression; fold rules and evaluator arms regenerated from the Rust source by translators) + model/impl differential on ASTs and on real programs (parse vs parse_unfolded, Engine)",
     "design_ref": "DESIGN.md §7 C10",
-    "level_text": "Theorem C10_fold_sound (coq/theories/Expr/Props.v): for every expression e outside the known-finding class Known_C10_identity (a type-blind identity rewrite x*0, 0*x, x*1, 1*x, x+0, 0+x, x-0, x/1 fires while folding e; C10_identity_refuted shows the class is a genuine defect, pinned by optimize.rs's unit tests) the folder returns some e' (it never panics) and on every event eval(e') = eval(e) -- same value, same absence of a value -- for every implementation of the f64 operations; C10_fold_sound_b64 is the binary64 instance that is run against the implementation. The folder's rule table and the evaluator's arithmetic arms are regenerated from optimize.rs / evaluator.rs on every run and the theorem is re-proved against them",
+    "level_text": "Theorem C10_fold_sound (coq/theories/Expr/PropsC10.v): for every expression e outside the known-finding class Known_C10_identity (a type-blind identity rewrite x*0, 0*x, x*1, 1*x, x+0, 0+x, x-0, x/1 fires while folding e; C10_identity_refuted shows the class is a genuine defect, pinned by optimize.rs's unit tests) the folder returns some e' (it never panics) and on every event eval(e') = eval(e) -- same value, same absence of a value -- for every implementation of the f64 operations; C10_fold_sound_b64 is the binary64 instance that is run against the implementation. The folder's rule table and the evaluator's arithmetic arms are regenerated from optimize.rs / evaluator.rs on every run and the theorem is re-proved against them",
     "level_note": "Floats: the theorems hold for an abstract f64 interface (any total implementation of + - * / % powi powf neg ...), which is all C10 needs (folder and evaluator use the same operations); the correspondence check runs the Flocq binary64 instance (exact for + - * / % sqrt floor ceil round casts powi comparisons; powf/ln/exp/sin/cos/tan/parse::<f64> are not modelled and expressions that may reach them are judged by the oracle only). Modelled by hand and tied by digest to the source (translate/expr_shape.json, fold_shape.json) + differential run: fold_expr's recursion, every non-arithmetic evaluator arm, the built-ins. Not modelled: user-defined functions / statement interpreter (fold_stmt on fn bodies), SequenceContext and bindings (empty at .where/.emit), the pest parser (parse_unfolded hook, checked against parse on every program: parse(t) = fold_program(parse_unfolded(t))). Trusted: Coq kernel + vm_compute, 4 standard-library axioms under Flocq (instance theorem only), translators, harness, Python driver",
 }
 
@@ -89,7 +89,7 @@ def check(run):
                     "Rust harness harness/crates/expr, Python driver checks/expr_common.py"]
     run.assumptions += ["no user-defined functions, empty SequenceContext and bindings (the .where / .emit call sites)",
                         "collection lengths fit i64 (model uses unbounded Z for lengths)"]
-    binpath, model_ok = X.build_all(run, ["theories/Expr/Props.vo"], "C10.v", AXIOMS)
+    binpath, model_ok, fold_ok = X.build_all(run, ["theories/Expr/PropsC10.vo"], "C10.v", AXIOMS)
     if binpath is None:
         return
     cases, progs = gen_cases(run)
@@ -131,7 +131,7 @@ def check(run):
                 sknown = sm["known"] if sm is not None else X.py_identity_fires(se)[0]
                 run.violation("folding changes what the expression computes: " + "; ".join(msgs)[:500],
                               {"kind": "ast", "expr": se, "expr_text": X.to_text(se), "events": sev, "implementation": sa,
-                               "contradicts": "C10_fold_sound (coq/theories/Expr/Props.v)"},
+                               "contradicts": "C10_fold_sound (coq/theories/Expr/PropsC10.v)"},
                               classes=[X.KNOWN_IDENTITY] if sknown else [])
         if v["corr"] and shown["corr"] < 3:
             shown["corr"] += 1
@@ -153,7 +153,7 @@ def check(run):
                 shown["known" if known else "c10"] += 1
                 run.violation("folding changes what the program computes: " + "; ".join(v["c10"])[:500],
                               {"kind": "program", "vpl": text, "events": evs, "implementation": {k: a.get(k) for k in ("folded", "unfolded", "run_folded", "run_unfolded")},
-                               "contradicts": "C10_fold_sound (coq/theories/Expr/Props.v)"},
+                               "contradicts": "C10_fold_sound (coq/theories/Expr/PropsC10.v)"},
                               classes=[X.KNOWN_IDENTITY] if known else [])
         if v["corr"] and shown["corr"] < 5:
             shown["corr"] += 1
